@@ -217,6 +217,7 @@ type c11env struct {
 	note   func(secret, core string)
 	extra  *[]c11needles
 	retErr *[]string // texts of the errors returned to the caller (counted, not part of the oracle)
+	stall  *func()   // how to make the device fall silent (fault silent-secret)
 }
 
 // c11unlockDevice: an IOS-like device with a console lock: `unlock console` asks for a key that is
@@ -231,7 +232,9 @@ func c11unlockDevice(e *c11env, enableSecret string) *sim.CLI {
 			c.Hidden = false
 			return ""
 		}
-		if line == "unlock console" {
+		// (suffix: after a failed write of a return earlier in the session the line still holds what
+		// was typed before; the device must not echo the key because of OUR fault injection)
+		if strings.HasSuffix(line, "unlock console") {
 			awaiting = true
 			c.Hidden = true
 			return "Key: "
@@ -240,6 +243,7 @@ func c11unlockDevice(e *c11env, enableSecret string) *sim.CLI {
 	}
 	dev.Seg = e.seg
 	dev.WriteFault = e.fault
+	*e.stall = func() { dev.Pipe.StallAt = dev.Pipe.Emitted }
 	dev.Start()
 	return dev
 }
@@ -337,6 +341,7 @@ func runC11hiddenOnOpen(e *c11env) (info string) {
 	dev := sim.NewIOS("router", devSecret, true)
 	dev.Seg = e.seg
 	dev.WriteFault = e.fault
+	*e.stall = func() { dev.Pipe.StallAt = dev.Pipe.Emitted }
 	dev.Start()
 	events := []*channel.SendInteractiveEvent{
 		{ChannelInput: "enable", ChannelResponse: "(?im)^password:\\s?$", HideInput: false},
